@@ -184,6 +184,9 @@ pub struct Gen<'a> {
     /// number of distinct literal ranges used (kept <= 6 so range identity is never observable)
     ranges: Vec<(i64, i64)>,
     trace_id: usize,
+    /// globals that functions may use before the program defines them (late binding)
+    late_pending: Vec<String>,
+    late_defined: Vec<String>,
     /// a pending self-recursive call to place: (function, depth parameter, arity)
     rec_target: Option<(String, String, usize)>,
     /// false while generating the right side of a compound assignment (calls are fine there, but
@@ -220,6 +223,8 @@ impl<'a> Gen<'a> {
             labels: Vec::new(),
             ranges: Vec::new(),
             trace_id: 0,
+            late_pending: Vec::new(),
+            late_defined: Vec::new(),
             rec_target: None,
             tracer_ok: true,
         }
@@ -393,6 +398,20 @@ impl<'a> Gen<'a> {
 
     /// a variable reference of (roughly) the wanted kind, if one is visible
     fn var_ref(&mut self, want: Kind) -> Option<Expr> {
+        if self.fns.len() > 1 && want == Kind::Num && self.rd.chance(1, 16) {
+            // a global the program has not defined yet (or never will): looked up when the use executes
+            self.label("late_global_use");
+            let name = if !self.late_pending.is_empty() && self.rd.flag() {
+                self.late_pending[self.rd.below(self.late_pending.len())].clone()
+            } else if !self.late_defined.is_empty() && self.rd.flag() {
+                self.late_defined[self.rd.below(self.late_defined.len())].clone()
+            } else {
+                let n = self.fresh("late");
+                self.late_pending.push(n.clone());
+                n
+            };
+            return Some(Expr::var(&name));
+        }
         let vs = self.vars_of(want);
         if vs.is_empty() {
             return None;
@@ -742,6 +761,38 @@ impl<'a> Gen<'a> {
     }
 
     fn assign_expr(&mut self, d: usize) -> Option<Expr> {
+        // element assignment (its value is nil) and field assignment / compound assignment
+        if self.rd.chance(1, 8) {
+            let vecs = self.vars_of(Kind::Vec);
+            if !vecs.is_empty() {
+                self.label("element_assign");
+                let v = vecs[self.rd.below(vecs.len())].name.clone();
+                let i = match self.rd.below(4) {
+                    0 => Expr::num(-1.0),
+                    1 => self.expr(Kind::Num, 1),
+                    _ => self.small_int(),
+                };
+                let k = self.scalar_kind();
+                let rhs = self.expr(k, d.min(2));
+                return Some(Expr::assign(Target::Index(Expr::var(&v), i), rhs));
+            }
+        }
+        if self.rd.chance(1, 8) {
+            let insts = self.vars_of(Kind::Inst(0));
+            if !insts.is_empty() {
+                let o = insts[self.rd.below(insts.len())].name.clone();
+                let f = self.rd.pick_str(FIELDS).to_string();
+                if self.rd.flag() {
+                    self.label("field_compound_assign");
+                    let op = *self.rd.pick(&BinOp::ARITH);
+                    let rhs = self.simple_expr(Kind::Num, 1);
+                    return Some(Expr::compound(Target::Prop(Expr::var(&o), f), op, rhs));
+                }
+                self.label("field_assign");
+                let rhs = self.expr(Kind::Num, d.min(2));
+                return Some(Expr::assign(Target::Prop(Expr::var(&o), f), rhs));
+            }
+        }
         let vs: Vec<VarInfo> = self.visible().into_iter().filter(|v| v.assignable).collect();
         if vs.is_empty() {
             return None;
@@ -1070,6 +1121,11 @@ impl<'a> Gen<'a> {
                 self.label("redefine_global");
                 gs[self.rd.below(gs.len())].name.clone()
             }
+        } else if self.at_global() && !self.late_pending.is_empty() && self.rd.chance(1, 2) {
+            self.label("late_global_defined");
+            let n = self.late_pending.remove(0);
+            self.late_defined.push(n.clone());
+            n
         } else if self.at_global() {
             self.fresh("g")
         } else {
